@@ -39,6 +39,14 @@ func genC08(r *core.Rng, id int) *c08Case {
 	for _, t := range s.Types {
 		if t.Kind == "SCALAR" {
 			cfg.Bindings[t.Name] = fmt.Sprintf("example.com/%c/types.T%d", 'a'+byte(k), k)
+			if id%2 == 1 {
+				// ... and (un)marshaled by functions of further same-named packages, which are
+				// referenced for the first time while the types are rendered
+				if cfg.Marshalers == nil {
+					cfg.Marshalers = map[string][2]string{}
+				}
+				cfg.Marshalers[t.Name] = [2]string{fmt.Sprintf("example.com/%c/codec.Marshal%d", 'p'+byte(k), k), fmt.Sprintf("example.com/%c/codec.Unmarshal%d", 'p'+byte(k), k)}
+			}
 			k++
 		}
 	}
